@@ -1207,7 +1207,7 @@ Proof.
   - intros (p & Hp & Hin). eapply C09_accept_complete; eauto.
 Qed.
 
-(* ... and rejected with the library's order error otherwise *)
+(* ... and whatever the arguments, a call whose section may not follow the previous one is rejected, atomically *)
 Theorem C09_reject_order : forall s c p s' r, reachable s -> w_prev s = Some p -> ~ In (target s c) (table p) ->
   do_call c s = (s', r) -> exists e, r = Err e /\ s' = s.
 Proof.
@@ -1380,4 +1380,12 @@ Example ex_document :
      WriteMeta (WDict (JObj [(ascii_text (B "k"), JInt 1)])) WNone None;
      WriteDiff (WBytes (B "x")) WNone WNone WNone; ex_preamble]))
   = [Ok tt; Err ELibOrder; Ok tt; Ok tt; Ok tt; Ok tt; Err ELibOrder].
+Proof. vm_compute. reflexivity. Qed.
+
+(* atomicity is a property of reachable states, not of the type of [do_call]: the model never rolls back, and on an
+   (unreachable) writer with an empty encoding stack new_change() writes its header and THEN raises IndexError *)
+Example ex_not_trivial :
+  let s := {| w_out := []; w_stack := []; w_prev := None |} in
+  do_call (NewChange WNone) s
+  = ({| w_out := B "#.change:" ++ [x0a]; w_stack := []; w_prev := Some (B ".change") |}, Err EIndex).
 Proof. vm_compute. reflexivity. Qed.
